@@ -121,7 +121,7 @@ func searchTail(r *hx.Rng, n int) int {
 		}
 		rest := rd.ReadRemainingBytes()
 		if alignedEnd {
-			if rest == nil || !bytes.Equal(rest, tail) || rd.AccError() != nil {
+			if !bytes.Equal(rest, tail) || rd.AccError() != nil {
 				fail("bits.Reader.ReadRemainingBytes", "remaining-bytes", witness,
 					fmt.Sprintf("byte aligned after the values: returned %s (nil=%v) err=%v, the bytes behind the values are %s", hx.Hex(rest), rest == nil, rd.AccError(), hx.Hex(tail)))
 				continue
